@@ -11,6 +11,11 @@ from vf.pysym.engine import Engine
 from vf.pysym.values import Inconclusive, ModelRaise, is_sym
 
 
+import os as _os
+
+CROSSCHECK = _os.environ.get("VERIF_CROSSCHECK") == "1"
+
+
 def model_value(m, t):
     if not is_sym(t):
         return t
@@ -37,6 +42,47 @@ def conj(cs):
     if not cs:
         return z3.BoolVal(True)
     return z3.And(*cs) if len(cs) > 1 else cs[0]
+
+
+CROSS_MAX = 25   # decisive queries per obligation handed to the second solver
+
+
+def second_opinion(eng, pc, goal, r):
+    """thorough tier: the decisive 'unsat' of z3 is put to cvc5 as well (SMT-LIB2 text, separate process).
+    cvc5 'unsat' = agreement; 'sat' = DISAGREEMENT (the obligation becomes inconclusive); anything else = no answer."""
+    import os
+    import subprocess
+    import tempfile
+
+    if not r.cross:
+        r.cross.update({"agree": 0, "disagree": 0, "no_answer": 0})
+    cs = r.cross
+    if cs["agree"] + cs["disagree"] + cs["no_answer"] >= CROSS_MAX:
+        return True
+    s = z3.Solver()
+    s.add(*pc, *eng.axioms, goal)
+    text = "(set-logic ALL)\n" + s.to_smt2().replace("bv2int", "bv2nat")
+    fd, path = tempfile.mkstemp(suffix=".smt2", prefix="vf_x_")
+    try:
+        with os.fdopen(fd, "w") as f:
+            f.write(text)
+        try:
+            out = subprocess.run(["cvc5", "--tlimit=20000", "--strings-exp", path], capture_output=True, text=True, timeout=40).stdout
+        except Exception:  # noqa
+            out = ""
+    finally:
+        os.unlink(path)
+    first = (out.strip().splitlines() or [""])[0].strip()
+    if "(error" in out:
+        cs["no_answer"] += 1
+    elif first == "unsat":
+        cs["agree"] += 1
+    elif first == "sat":
+        cs["disagree"] += 1
+        return False
+    else:
+        cs["no_answer"] += 1
+    return True
 
 
 def decide(eng: Engine, harness, post, inputs, r: ObResult, describe=None, max_cex=3, sample_every=None):
@@ -116,6 +162,11 @@ def decide(eng: Engine, harness, post, inputs, r: ObResult, describe=None, max_c
             bad.append((w, obs, m))
             if len(bad) >= max_cex:
                 break
+        elif CROSSCHECK and not second_opinion(eng, pc, z3.Not(cond), r):
+            r.verdict = INCONCLUSIVE
+            r.note = "second solver (cvc5) answers sat where z3 answered unsat on a post-condition query"
+            _fill(eng, r, t0)
+            return r
         if len(r.samples) < 3 and (symdec or len(results) == 1):
             _, m2 = eng.check(pc=pc)
             if m2 is not None:
